@@ -36,6 +36,8 @@ def generate(seed, tier, enlarged=False):
     # engine; sensors with timesteps 1-3 adding to a counter outside their compartment)
     from harness import live, struct
     cases += [live.gen_case(rng) for _ in range(n // 6)]
+    # corpus: known finding K10 as C01 sees it (the update in flight of a moved compartment's sensor is silently lost)
+    cases.append({'kind': 'live', 'hist': [['B', [['generate', 'c01', 9, {'s': {'n': 1}}]]], ['A', [['generate', 'c02', 2, {}], ['generate', 'c03', 0, {}], ['generate', 'c04', 3, {'s': {'n': 2, 'd': 3, 'f': 1, 'g': 5}}]]], ['B', [['add', 'c05', {'s': {'n': 6}}], ['divide', 'c01', [['c06', 1, {}], ['c07', 3, {}]], 520513], ['add', 'c08', {'s': {'n': 2}}]]], ['A', [['add', 'c09', {'s': {'n': 6}}]]], ['B', [['move', 'c05', 'A'], ['move', 'c07', 'A']]]], 'director': 'process', 'refresh': [0], 'extra': 2, 'slow': True, 'entry': 'parts', 'more': {'i3': {'s': {'n': 6}}, 'i1': {'s': {'n': 6}}, 'i2': {'s': {'n': 6}}}})
     # value updates carried by the same update as structural keys (never lost): structural histories as C09
     cases += [{'kind': 'hist', 'hist': struct.gen_history(rng, rng.randint(3, 8))} for _ in range(n // 6)]
     return cases
